@@ -270,7 +270,9 @@ ADDED = {
            "inductive (Init => IndInv; IndInv and Next => IndInv'): the safety clauses hold in executions of any length (3 threads; thorough "
            "also 4); TLC checks the same shape facts (IndShape) on the bounded model.",
     "C09": " Also: every public operation x every single-fault plan on the pooled stacks, misc operations in the sequences, calls that fail "
-           "without a connection fault (illegal key, dict-style read of an absent key), and 'nothing idle-expired stays pooled after a checkout'.",
+           "without a connection fault (illegal key, dict-style read of an absent key), and 'nothing idle-expired stays pooled after a checkout'. spec/PoolSeq.tla is the as-coded sequential pool with its idle clock "
+           "(carrying the PoolRule monitor): TLC explores every sequence to depth 7 (thorough 9), and every exported behaviour is replayed on "
+           "the real ObjectPool, whose trace must be the predicted one (the LIFO variant of the model must fail).",
     "C10": " Interruption points now include: the request half sent, the error-path close() before / after the descriptor is closed, the "
            "close of an idle-expired pooled connection, the pool's clean-up of a call rejected before any exchange.",
     "C11": " Also: redundant add_node in the model and the histories, constructor-provided node lists, node names of several shapes, "
